@@ -422,4 +422,25 @@ func init() {
 	replaceOutside("C14", "client-visible trailers on gRPC / gRPC-web", "")
 	replaceOutside("C16", "publication atomicity of registerService", "")
 	replaceOutside("C19", "config-rule vs annotation equivalence", "")
+
+	gz := "REAL compress/gzip (and compress/flate, hash/crc32) interpreted on concrete payloads {1 byte, 64 x 'a', 30 distinct bytes} with larking's pooled CompressorGzip, receive limit 32, two consecutive calls on one mux (the second reuses the pooled reader / writer; full menu for the second call in the thorough tier)"
+	ext("C13", gz+"; pooled compressor used 2x then a truncated stream (every cut of 1..9 bytes) then 2 decompressions",
+		HarnessSpec{Name: "VerifH_gzip_pool", Covers: []string{"roundtrip", "after-corrupt-stream"}},
+		HarnessSpec{Name: "VerifH_gzip_http", Covers: []string{"second-call", "gzip-request", "truncated-request"}},
+		HarnessSpec{Name: "VerifH_gzip_grpc", Covers: []string{"second-call", "gzip-request", "gzip-reply", "truncated-request"}})
+	ext("C08", gz+"; HTTP Content-Encoding: gzip bodies and gRPC compressed frames around the limit",
+		HarnessSpec{Name: "VerifH_gzip_http", Covers: []string{"over-limit-after-decompression", "within-limit-though-compressed-form-is-larger"}},
+		HarnessSpec{Name: "VerifH_gzip_grpc", Covers: []string{"over-limit-after-decompression", "compressed-form-above-limit-refused"}})
+	ext("C03", gz+"; gzip content-encoded request bodies (valid and truncated)",
+		HarnessSpec{Name: "VerifH_gzip_http", Covers: []string{"gzip-request", "truncated-request"}})
+	ext("C04", gz+"; every response body decoded as its Content-Encoding header says is the reply / the error status, with and without Accept-Encoding: gzip, for succeeding and failing handlers",
+		HarnessSpec{Name: "VerifH_gzip_http", Covers: []string{"error-with-accept-gzip", "gzip-request"}})
+	ext("C06", gz+"; gRPC per-message gzip compression in both directions",
+		HarnessSpec{Name: "VerifH_gzip_grpc", Covers: []string{"gzip-request", "gzip-reply", "truncated-request"}})
+	replaceOutside("C03", "real protobuf binary bodies and gzip", "real protobuf binary bodies; gzip with symbolic payload bytes (payloads are concrete): the claim is the plumbing (which bytes reach which codec on which (sub)message, params after the body, first message only), the string / bytes / enum / bool / int32 / int64 / uint32 conversions, and JSON bodies of string and nested-message members through larking's JSON codec (protojson modelled, real in replays)")
+	replaceOutside("C04", "gzip's real byte stream", "a gzip-compressed RESPONSE: NewMux builds its encoding offers from the codec names, so response compression is never negotiated on this tree; the harness checks that branch (with the real gzip) as soon as a change makes it reachable")
+	replaceOutside("C06", "gzip, real HTTP/2 flow control", "real HTTP/2 flow control; gzip with symbolic payload bytes")
+	replaceOutside("C08", "gzip's real expansion", "gzip with symbolic payload bytes; whether a compressed FRAME longer than the limit around a message within it must be accepted (grpc-go refuses it too) is left unspecified")
+	replaceOutside("C09", "real protobuf / JSON codecs and gzip", "real protobuf codec; gzip streams with symbolic bytes")
+	replaceOutside("C13", "data-race freedom, true concurrency, gzip pools", "data-race freedom, true concurrency, the proxy's stream pumps: no goroutine model (N/A part, stated); pooled-buffer aliasing and pooled gzip reader / writer reuse are decided across consecutive requests")
 }
